@@ -218,7 +218,7 @@ def main():
         cnt = collections.Counter()
         for v in violations:
             w = {k: x for k, x in (v.get("where") or {}).items() if not isinstance(x, (list, dict))}
-            cnt[(v["explorer"], v["kind"], json.dumps(w, sort_keys=True))] += 1
+            cnt[(v["explorer"], v["kind"], json.dumps(w, sort_keys=True) if os.environ.get("VERIF_SUMMARY_FULL") else "")] += 1
         for (e, k, w), c in sorted(cnt.items(), key=lambda t: -t[1]):
             print(f"SUMMARY {c:6d} {e} {k} {w}")
     if violations:
